@@ -230,7 +230,7 @@ pub fn run_stress(args: &Args, mut out: Out) {
             // ---- C12: after any history the full configured number can be serviced simultaneously again ----
             gates.open_all();
             for c in clients.iter_mut() {
-                if let Some(mut s) = c.sock.take() {
+                if let Some(s) = c.sock.take() {
                     emit("ClientClose", 0, u64::from(c.port));
                     aborted.push(c.port);
                     let _ = s.shutdown(std::net::Shutdown::Both);
